@@ -545,6 +545,14 @@ the point was never reached). The model predicts from the regenerated step order
 landed; the state follows what was observed (for an unacknowledged call either outcome is legal, but
 nothing in between: the following queries are answered from `h` or from `h ++ [op]`). -/
 def doOp (a : Acc) (idx : Nat) (op : Json) : R Acc := do
+  if (← getStr op "op") == "compact" && getBoolD op "raced" false && getStrD op "rc" "" == "" then
+    -- C12, forced schedule: a writer committed between the compactor's snapshot and one of its flushes
+    match a.s.dsid.lookup (← getStr op "ds"), getOpt op "race" with
+    | some ds, some race =>
+      let a1 ← doOpCore a idx (← getObj race "inner")
+      return { a1 with s := { a1.s with db := compactRaced true a.s.db a1.s.db ds } }
+    | _, _ => doOpCore a idx op
+  else
   if (← getStr op "op") != "crash" then doOpCore a idx op else
   let inner ← getObj op "inner"
   let ikind ← getStr inner "op"
